@@ -16,6 +16,7 @@ def parseAct (tok : String) : Option Act :=
   | "ZD" => some (.die .overrun)
   | _ =>
     if tok.startsWith "K" then (tok.drop 1).toNat?.map (fun n => .die (.signal n))
+    else if tok.startsWith "X" || tok.startsWith "Y" then some (.check false)      -- a failing check with a given message text
     else none
 
 def parseActs (s : String) : Option (List Act) :=
@@ -78,6 +79,7 @@ def pline (ps : PState) (line : String) : PState :=
       else if mode.startsWith "single:" then
         { ps with cfg := { cap := c, mode := .inproc }, single := some (mode.drop 7).toString }
       else { ps with err := some s!"bad mode {mode}" }
+  | ["file", _] => ps
   | ["kill", point, occ, how, test] => { ps with kill := some { point := point, occ := occ.toNat?.getD 1, how := how, test := test } }
   | ["begin", name, su, td] => { ps with stack := { name := name, su := su = "1", td := td = "1" } :: ps.stack }
   | ["end"] =>
